@@ -17,5 +17,7 @@ func init() {
 	addMutants(
 		Mutant{Name: "c18-part-len-stale-regression", Prop: "C18", File: "uePolicyContainer/UePolicyContainer_UEPolicyParts.go", Old: "\t// len\n\t_ = u.SetLen_byContent()\n", New: "\t// len\n\tif u.Len == 0 {\n\t\t_ = u.SetLen_byContent()\n\t}\n",
 			Expect: "seq.len-covers / uePolicyContainer.(*UEPolicyPart).MarshalBinary", Why: "the repaired stale-length defect returns"},
+		Mutant{Name: "c18-reuse-command-struct", Prop: "C18", File: "uePolicyContainer/UePolicyContainer.go", Old: "\t\tu.ManageUEPolicyCommand = NewManageUEPolicyCommand(MsgTypeManageUEPolicyCommand)\n", New: "\t\tif u.ManageUEPolicyCommand == nil {\n\t\t\tu.ManageUEPolicyCommand = NewManageUEPolicyCommand(MsgTypeManageUEPolicyCommand)\n\t\t}\n",
+			Expect: "dec.fresh-target", Why: "the command structure is reused across decodes: an optional classmark of an earlier message survives"},
 	)
 }
